@@ -32,7 +32,12 @@ Why(e) ==
       lay == Layout(e.stmts, e.bpa) IN
   IF ~HexValid(e.file) \/ img = {} THEN <<"skip:output file unreadable">>
   ELSE IF ~Disjoint(lay) THEN <<"skip:program overwrites itself">>
-  ELSE IF ImgAddrs(img) # Written(lay) THEN <<"skip:layout differs from the model">>
+  ELSE IF ImgAddrs(img) # Written(lay) THEN
+    \* the output file is not what the model of the statements places (that is C05's and C03's subject); the listing is
+    \* still held against the file it was written with: these two clauses need no layout
+    LET c == Clause("ListedBytesTrue", FalseClaims(img, e.claims, e.rows, e.bpa), lay)
+             \o Clause("EveryByteListed", Unlisted(img, e.claims, e.rows, e.bpa), lay)
+    IN IF c = <<>> THEN <<"skip:layout differs from the model">> ELSE c
   ELSE
     Clause("ListedBytesTrue", FalseClaims(img, e.claims, e.rows, e.bpa), lay)
     \o Clause("EveryByteListed", Unlisted(img, e.claims, e.rows, e.bpa), lay)
